@@ -105,6 +105,40 @@ def step (line : String) : String :=
     let alpha := ",".intercalate ((List.range n).map fun k => floatTok (al k))
     let bv := if b then floatTok (computeBias s (fun c => Float.ofNat c)) else "0@0"
     s!"acc={if acc then 1 else 0} it={it} alpha=[{alpha}] b={bv}"
+  | "csvm3" :: _kind :: _kern :: _gamma :: bias :: shrink :: _pre :: _cache :: eps :: maxit :: _maxsec :: warmmode :: warmit :: warmfac ::
+      _weighted :: Cn :: Cp :: _dbl :: _sparse :: nT :: dT :: rest =>
+    -- the same trainer model as `csvm2`; the axes the model does not have (double cache, sparse inputs, real cache sizes) must
+    -- not change anything on exact data; warmmode 2 = explicit previous coefficients (the last n tokens)
+    let n := nT.toNat!; let d := dT.toNat!
+    let a := rest.toArray
+    if a.size != n * d + 3 * n then "bad-op" else
+    let x := fun i k => tokFloat (a.getD (i * d + k) "0@0")
+    let y := fun i => tokFloat (a.getD (n * d + i) "0@0") > 0.0
+    let warr := Array.ofFn (n := n) fun i => tokFloat (a.getD (n * d + n + i.val) "0@0")
+    let w := fun i => warr.getD i 0.0
+    let a1given := Array.ofFn (n := n) fun i => tokFloat (a.getD (n * d + 2 * n + i.val) "0@0")
+    let Karr := Array.ofFn (n := n * n) fun p =>
+      (List.range d).foldl (fun acc k => acc + x (p.val / n) k * x (p.val % n) k) 0.0
+    let K := fun i j => Karr.getD (i * n + j) 0.0
+    let b := bias == "1"
+    let strategy := if b then 1 else 2
+    let cn := tokFloat Cn; let cp := tokFloat Cp; let fac := tokFloat warmfac
+    let wit := warmit.toNat!
+    let s0 := compact (csvmInit2 n K y cn cp w b (shrink == "1"))
+    let sStart :=
+      if warmmode == "0" then s0 else
+      let a1arr :=
+        if warmmode == "2" then a1given else
+        let s1 := (solveLoop strategy (tokFloat eps) wit (compact (csvmInit2 n K y (cn * fac) (cp * fac) w b (shrink == "1"))) 0 0).1
+        Array.ofFn (n := n) fun i => unpermutedAlpha s1 0.0 i.val
+      let a1 := fun i => a1arr.getD i 0.0
+      let v := Array.ofFn (n := n) fun i => warmStartVector s0 a1 b i.val
+      compact (s0.setInitialSolution (fun i => v.getD i 0.0))
+    let (s, acc, it) := solveLoop strategy (tokFloat eps) maxit.toNat! sStart 0 0
+    let al := unpermutedAlpha s 0.0
+    let alpha := ",".intercalate ((List.range n).map fun k => floatTok (al k))
+    let bv := if b then floatTok (computeBias s (fun c => Float.ofNat c)) else "0@0"
+    s!"acc={if acc then 1 else 0} it={it} alpha=[{alpha}] b={bv}"
   | "esvr" :: shrink :: C :: tube :: eps :: maxit :: nT :: dT :: rest =>
     -- epsilon-regression
     let n := nT.toNat!; let d := dT.toNat!
